@@ -130,6 +130,9 @@ func (e *Engine) stringConst(x *Exec, s string) string {
 	return name
 }
 
+// specSubdir: directory (under the verif dir) holding the specification files; the v2 module has its own
+var specSubdir = "spec"
+
 func loadEngine(repo, verifDir string, patterns []string, overlay map[string][]byte) (*Engine, error) {
 	e := &Engine{repo: repo, verifDir: verifDir, fns: map[string]*ssa.Function{}, contracts: map[string]*Contract{}, specFns: map[string]*SpecFn{}, specConsts: map[string]string{}, ghosts: map[string]string{}, regions: map[string][]string{}, typeIDs: map[string]int{}, so: newSorts(), wsMemo: map[*ssa.Function]*WriteSet{}, wsBusy: map[*ssa.Function]bool{}, allPkgs: map[string]*types.Package{}, rowOps: map[string]bool{}, mapCards: map[string]string{}, strConsts: map[string]int{}, axioms: map[string][]Clause{}, onStore: map[string]string{}, storeFacts: map[string]predApp{}, ghostByValue: map[string]bool{}, named: map[string]string{}, regionAcc: map[string][]string{}, opaqueDefs: map[string]string{}, onAlloc: map[string]string{}, onStoreFlag: map[string]string{}, onAllocEmpty: map[string][]string{}, errflow: map[string]*Contract{}}
 	// scratch copy of go.mod/go.sum so that the repository is never written
@@ -205,7 +208,7 @@ func loadEngine(repo, verifDir string, patterns []string, overlay map[string][]b
 		}
 	}
 	// spec library
-	specDir := filepath.Join(verifDir, "spec")
+	specDir := filepath.Join(verifDir, specSubdir)
 	ents, _ := os.ReadDir(specDir)
 	var names []string
 	for _, en := range ents {
